@@ -76,6 +76,7 @@ func runC02(c *core.Ctx, r *core.Reporter) {
 	c.BuildSSA()
 	c02deliver(c, r, "C02.deliver")
 	c02wrapped(c, r)
+	c02shortread(c, r)
 	names := constNames(c, "")
 	// mode tables: every string constant stored into reader.mode / reader.nextMode anywhere in the module
 	tables := map[string]bool{}
